@@ -1245,6 +1245,8 @@ func (p *Parser) quotedHdocWord() *Word {
 	stop := p.hdocStops[len(p.hdocStops)-1]
 	for ; ; r = p.rune() {
 		if r == runeEOF {
+			// Like the unquoted case, let an unclosed heredoc be reported as incomplete.
+			p.tok = _EOF
 			return nil
 		}
 		for p.quote == hdocBodyTabs && r == '\t' {
